@@ -64,18 +64,26 @@ Lemma explicit_even_kernel_refuted_lemma :
     stripe_taps_ok g 0 4 5 = false /\ stripe_taps_ok g 0 0 5 = true.
 Proof. eexists _, _. split; [vm_compute; reflexivity|]. vm_compute. repeat split; reflexivity. Qed.
 
-(* (4) calc_explicit_padding loses bottom padding that the last window needs: 2x2 kernel, stride 3, IFM 3 rows,
-   PAD (1,1) -> OFM 2 rows; needed_total_padding = max(2 - 3, 0) = 0 and the residue test removes the bottom row.
-   The operator itself (and each of its depth slices) reads IFM row 3 of a 3-row IFM *)
-Lemma explicit_bottom_lost_refuted_lemma :
+(* (4) REPAIRED in /repo 8267dad (was: calc_explicit_padding lost bottom padding that the last window needs).
+   2x2 kernel, stride 3, IFM 3 rows, PAD (1,1) -> OFM 2 rows.  The old code computed the residue target from
+   needed_total_padding = max(2 - 3, 0) = 0 and returned (1, 0): the operator read IFM row 3 of a 3-row IFM.  The code as it
+   is now returns (1, 1) and the whole operator is tap-equal; the general statement is calc_explicit_padding_exact. *)
+Definition calc_explicit_padding_old (input_size stride filter_size pad_before pad_after : Z) : Z * Z :=
+  (pad_before, explicit_after (Z.to_nat pad_after) pad_after stride
+                 (needed_total_padding input_size stride filter_size - pad_before)).
+
+Example explicit_bottom_repaired_example :
+  calc_explicit_padding_old 3 3 2 1 1 = (1, 0) /\
+  calc_explicit_padding 3 3 2 1 1 = (1, 1) /\
+  hw_tap 0 3 1 0 2 3 2 1 1 = TOob /\ ref_tap 0 3 1 3 1 1 = TPad /\     (* what the old (1, 0) meant for the hardware *)
   exists pad skirt,
     calc_padding_and_skirt PAD_EXPLICIT 2 2 3 3 3 3 (p4 1 1 1 1) = Some (pad, skirt) /\
-    p_bottom pad = 0 /\
-    let g := geom_of 3 2 2 1 3 pad skirt in
-    g_bottom g <> Z.max 0 ((g_out g - 1) * g_s g + g_kd g - g_top g - g_in g) /\
-    hw_tap 0 3 1 0 2 3 2 1 1 = TOob /\ ref_tap 0 3 1 3 1 1 = TPad /\
-    stripe_taps_ok g 0 0 2 = false.
-Proof. eexists _, _. split; [vm_compute; reflexivity|]. vm_compute. repeat split; try reflexivity. discriminate. Qed.
+    p_bottom pad = 1 /\ stripe_taps_ok (geom_of 3 2 2 1 3 pad skirt) 0 0 2 = true.
+Proof.
+  split; [vm_compute; reflexivity|]. split; [vm_compute; reflexivity|].
+  split; [vm_compute; reflexivity|]. split; [vm_compute; reflexivity|].
+  eexists _, _. split; [vm_compute; reflexivity|]. split; vm_compute; reflexivity.
+Qed.
 
 (* (5) width striping is not supported by create_padding: a second stripe that starts inside the left padding keeps
    the full left padding (the scheduler never produces width stripes; the tap theorem is stated for full-width boxes) *)
